@@ -438,6 +438,12 @@ func gen(g *fw.Gen) {
 	// round trips
 	for n := g.ShareOf(200000, 5000000); n > 0; n-- {
 		l := g.Rng.Intn(21)
+		if n%500 == 0 { // long paths: component counts beyond 255 and 65535 (counters narrower than int)
+			l = []int{255, 256, 257, 300, 1000, 40000, 65535, 65536}[g.Rng.Intn(8)]
+			if g.Quick() && l > 1000 && n%4000 != 0 {
+				l = 256 + g.Rng.Intn(50)
+			}
+		}
 		p := make([]uint32, l)
 		for k := range p {
 			if g.Rng.Intn(2) == 0 {
